@@ -36,6 +36,10 @@ pub enum FSpec {
     /// `n` negations stacked directly on top of each other (alternately `negate()` and `!`); symbolic so
     /// that replay files stay small
     Deep { n: u16, inner: Box<FSpec> },
+    /// the filter built so far is *used* before construction goes on: sent as an argument by reference,
+    /// formatted, cloned and compared (`how` picks which); a filter is a value, using it must not change
+    /// what it or anything derived from it denotes
+    Used { how: u8, inner: Box<FSpec> },
 }
 
 #[derive(Debug, Clone, Copy, Serialize, Deserialize)]
@@ -46,6 +50,15 @@ pub enum Carrier {
     CountThenGroupBy,
     ListFilter,
     ListFilterGrouped,
+    /// `filter()` called twice: documented to overwrite, the one under test is given last
+    ListFilterTwice,
+    CountGroupedFilterTwice,
+    CountThenGroupByThenFilter,
+}
+
+/// what the overwritten first call of `filter()` carries
+fn decoy() -> Filter {
+    Filter::tag(Tag::Genre, "decoy").and(Filter::tag_exists(Tag::Date)).negate()
 }
 
 #[derive(Debug, Clone, Serialize, Deserialize)]
@@ -115,6 +128,11 @@ pub fn build(spec: &FSpec) -> (Filter, Tree) {
             let (fb, tb) = build(b);
             (fa.and(fb), Tree::And(vec![ta, tb]))
         }
+        FSpec::Used { how, inner } => {
+            let (f, t) = build(inner);
+            let f = use_filter(f, *how);
+            (f, t)
+        }
         FSpec::Deep { n, inner } => {
             let (mut f, mut t) = build(inner);
             for i in 0..*n {
@@ -124,6 +142,31 @@ pub fn build(spec: &FSpec) -> (Filter, Tree) {
             (f, t)
         }
     }
+}
+
+/// Uses `f` the way an application does between two construction steps and hands it (or a clone made
+/// afterwards) back.
+fn use_filter(f: Filter, how: u8) -> Filter {
+    use mpd_protocol::command::Argument;
+    if how & 1 != 0 {
+        // rendered by reference, twice
+        let mut buf = bytes::BytesMut::new();
+        (&f).render(&mut buf);
+        let _ = mpd_protocol::Command::new("find").argument(&f);
+    }
+    if how & 2 != 0 {
+        let _ = format!("{f:?} {f:#?}");
+    }
+    if how & 4 != 0 {
+        let c = f.clone();
+        let _ = c == f;
+        let _ = mpd_protocol::Command::new("count").argument(c);
+    }
+    if how & 8 != 0 {
+        // construction goes on from a clone taken after the use
+        return f.clone();
+    }
+    f
 }
 
 fn values(t: &Tree, out: &mut Vec<Vec<u8>>) {
@@ -210,6 +253,9 @@ pub fn check(case: &Case) -> CaseResult {
         Carrier::CountThenGroupBy => (Count::new(filter).group_by(group).command(), 1),
         Carrier::ListFilter => (List::new(Tag::Title).filter(filter).command(), 2),
         Carrier::ListFilterGrouped => (List::new(Tag::Title).filter(filter).group_by([Tag::Album, Tag::Artist]).command(), 2),
+        Carrier::ListFilterTwice => (List::new(Tag::Title).filter(decoy()).filter(filter).command(), 2),
+        Carrier::CountGroupedFilterTwice => (CountGrouped::new(group).filter(decoy()).filter(filter).command(), 1),
+        Carrier::CountThenGroupByThenFilter => (Count::new(decoy()).group_by(group).filter(filter).command(), 1),
     };
     let bytes = sent_bytes(cmd);
     let line = &bytes[..bytes.len() - 1];
@@ -321,7 +367,9 @@ pub fn fspec() -> impl Strategy<Value = FSpec> {
             3 => (inner.clone(), inner.clone()).prop_map(|(a, b)| FSpec::And(Box::new(a), Box::new(b))),
             // the same sub-filter used twice in one conjunction
             1 => inner.clone().prop_map(|a| FSpec::And(Box::new(a.clone()), Box::new(a))),
-            1 => (inner.clone(), inner).prop_map(|(a, b)| FSpec::And(Box::new(FSpec::And(Box::new(a.clone()), Box::new(b))), Box::new(a))),
+            1 => (inner.clone(), inner.clone()).prop_map(|(a, b)| FSpec::And(Box::new(FSpec::And(Box::new(a.clone()), Box::new(b))), Box::new(a))),
+            // used (rendered / formatted / cloned / compared) before the next construction step
+            2 => (1..16u8, inner).prop_map(|(how, f)| FSpec::Used { how, inner: Box::new(f) }),
         ]
     })
     .prop_flat_map(|f| {
@@ -350,6 +398,9 @@ fn carrier() -> impl Strategy<Value = Carrier> {
         Just(Carrier::CountThenGroupBy),
         Just(Carrier::ListFilter),
         Just(Carrier::ListFilterGrouped),
+        Just(Carrier::ListFilterTwice),
+        Just(Carrier::CountGroupedFilterTwice),
+        Just(Carrier::CountThenGroupByThenFilter),
     ]
 }
 
